@@ -60,6 +60,54 @@ def parse_kani_output(out):
     return res
 
 
+def parse_kani_terse_parallel(out):
+    """-j N --output-format terse: result blocks are printed per thread; the harness of a block is the last
+    'Thread K: Checking harness X' line of that thread. Only failed checks are listed; every assertion of a harness
+    that is reported SUCCESSFUL was discharged."""
+    res = {}
+    cur = {}
+    lines = out.split("\n")
+    i = 0
+    while i < len(lines):
+        l = lines[i]
+        m = re.match(r"^(?:Thread (\d+): )?Checking harness (\S+?)\.\.\.", l)
+        if m:
+            cur[m.group(1) or "0"] = m.group(2)
+            i += 1
+            continue
+        m = re.match(r"^(?:Thread (\d+): )?\s*$", l)
+        if m and i + 1 < len(lines) and lines[i + 1].startswith("VERIFICATION RESULT:"):
+            th = m.group(1) or "0"
+            j = i + 1
+            block = []
+            while j < len(lines) and not lines[j].startswith("Verification Time:"):
+                block.append(lines[j])
+                j += 1
+            if j < len(lines):
+                block.append(lines[j])
+            b = "\n".join(block)
+            name = cur.get(th)
+            if name:
+                failed = [f.strip().strip('"') for f in re.findall(r"^Failed Checks: (.*)$", b, re.M)]
+                st = re.search(r"^VERIFICATION:- (\w+)", b, re.M)
+                tm = re.search(r"^Verification Time: ([0-9.]+)s", b, re.M)
+                cov = re.search(r"\*\* (\d+) of (\d+) cover properties satisfied", b)
+                checks = [{"id": "failed", "status": "FAILURE", "desc": f} for f in failed]
+                if st and st.group(1) == "SUCCESSFUL":
+                    checks.append({"id": "all", "status": "SUCCESS", "desc": "OBL all_assertions_of_harness"})
+                elif st:
+                    checks.append({"id": "all", "status": "SUCCESS", "desc": "OBL all_other_assertions_of_harness"})
+                if cov:
+                    checks.append({"id": "cover", "status": "SATISFIED" if cov.group(1) == cov.group(2) else "UNSATISFIABLE",
+                                   "desc": f"COV {cov.group(1)} of {cov.group(2)} cover properties"})
+                res[name.split("::")[-1]] = {"full": name, "status": st.group(1) if st else None, "checks": checks, "failed": failed,
+                                             "time": float(tm.group(1)) if tm else 0.0, "raw_tail": b[-3000:]}
+            i = j + 1
+            continue
+        i += 1
+    return res
+
+
 def run_kx(c, repo, workdir, tier):
     name = c["name"]
     comp = {"component": "kx:" + name, "backend": "kani_bounded" if c.get("bounded") else "kani", "undecided": None,
@@ -108,7 +156,11 @@ def run_kx(c, repo, workdir, tier):
         cmd = ["cargo", "kani", "-p", pkg, "-Z", "function-contracts", "-Z", "stubbing"] + c.get("flags", [])
         for h in harnesses:
             cmd += ["--harness", modname + "::" + h] if c.get("qualify", True) else ["--harness", h]
-        cmd += ["--output-format", "regular"]
+        par = c.get("mode") == "par"
+        if par:
+            cmd += ["-j", str(c.get("jobs", 14)), "--output-format", "terse"]
+        else:
+            cmd += ["--output-format", "regular"]
         comp["cmd"] = "CARGO_NET_OFFLINE=true " + " ".join(cmd[:12]) + (" ..." if len(cmd) > 12 else "")
         try:
             r = subprocess.run(cmd, cwd=dest, env=env, capture_output=True, text=True, timeout=tmo)
@@ -119,7 +171,7 @@ def run_kx(c, repo, workdir, tier):
         out = r.stdout + "\n" + r.stderr
         with open(os.path.join(workdir, f"kx-{name}.log"), "w") as f:
             f.write(out)
-        res = parse_kani_output(out)
+        res = parse_kani_terse_parallel(out) if par else parse_kani_output(out)
         if not res:
             comp["undecided"] = "kani did not run any harness (build error?): " + out[-1500:]
             return comp
